@@ -86,6 +86,24 @@ def _own_constructor_error():
     return _OWN_CTOR[0]
 
 
+class _UpstreamResponse(object):
+    def __init__(self, reason, extensions):
+        self.reason, self.extensions = reason, extensions
+
+
+def _own_constructor_error_2():
+    if len(_OWN_CTOR) < 2:
+        _own_constructor_error()
+        from py_gql.exc import ResolverError
+
+        class UpstreamFailed(ResolverError):
+            def __init__(self, response):
+                super().__init__(response.reason, extensions=response.extensions)
+
+        _OWN_CTOR.append(UpstreamFailed)
+    return _OWN_CTOR[1]
+
+
 def salt_of(kwargs):
     """Canonical text of coerced arguments (python names / internal enum values)."""
     def c(v):
@@ -357,10 +375,24 @@ class Binding(object):
                 if key not in shared:
                     shared[key] = ResolverError(message_as_raised(out[1]), extensions=out[2])
                 raise shared[key]
-            if int(h64(out[1])[8:12], 16) % 3 == 0:
+            sel = int(h64(out[1])[8:12], 16)
+            if sel % 3 == 0:
                 # an application error class deriving from the resolver error with a constructor of its own:
-                # copy.copy() / pickling cannot rebuild it from .args
-                raise _own_constructor_error()(42, message_as_raised(out[1]), out[2])
+                # copy.copy() / pickling cannot rebuild it from .args (TypeError for one class, AttributeError
+                # for the other: the constructor reads an attribute of what it is given)
+                if sel % 2:
+                    raise _own_constructor_error()(42, message_as_raised(out[1]), out[2])
+                raise _own_constructor_error_2()(_UpstreamResponse(message_as_raised(out[1]), out[2]))
+            if sel % 3 == 1:
+                # the application looks at the error before raising it (logging, auditing): rendering an error
+                # early must not freeze what it says later, once the library has given it a path and a location
+                err = ResolverError(message_as_raised(out[1]), extensions=out[2])
+                try:
+                    err.to_dict()
+                    str(err)
+                except Exception:
+                    pass
+                raise err
             raise ResolverError(message_as_raised(out[1]), extensions=out[2])
         if out[0] == "crash":
             raise crash(out[1], getattr(self, "crash_class", None))
